@@ -25,6 +25,34 @@ pub struct Oob {
     pub a: u16,
     /// how far past the end (1..=3)
     pub over: u8,
+    /// instead of "just past the end": an index far beyond it (selector into a table of huge values)
+    #[serde(default)]
+    pub far: Option<u8>,
+}
+
+/// positions far beyond any sequence, chosen where scaling by the symbol width would wrap
+fn far_index(sel: u8, bits: usize) -> usize {
+    let t = [
+        usize::MAX,
+        usize::MAX - 1,
+        1usize << 63,
+        (1usize << 63) + 1,
+        1usize << 62,
+        (1usize << 62) + 3,
+        1usize << 61,
+        1usize << 60,
+        usize::MAX / bits,
+        (usize::MAX / bits).saturating_add(1),
+        (usize::MAX / bits / 2 + 1).saturating_mul(3),
+        ((1usize << 63) / bits).saturating_mul(2) - 1,
+        1usize << 32,
+        (1usize << 32) + 1,
+        usize::MAX / 2,
+        usize::MAX / 3 + 1,
+        usize::MAX / 5 + 1,
+        usize::MAX / 6 + 1,
+    ];
+    t[sel as usize % t.len()]
 }
 
 #[derive(Clone, Debug, Serialize, Deserialize)]
@@ -114,7 +142,11 @@ fn check<C: Cm>(case: &Case) -> PResult {
     let mut oob_done = false;
     if let Some(o) = &case.oob {
         let len = model.len();
-        let over = (o.over % 3) as usize + 1;
+        let over = match o.far {
+            // `len + over` is the index used below: make it the far-out value
+            Some(sel) => far_index(sel, bits).saturating_sub(len).max(1),
+            None => (o.over % 3) as usize + 1,
+        };
         let a = scale16(o.a, len);
         let kind = o.kind % 8;
         let what;
@@ -166,6 +198,7 @@ fn check<C: Cm>(case: &Case) -> PResult {
     let nt = depth >= 2 || (start_bit % 64 != 0 && crosses);
     Ok(Pass::new(nt)
         .class_if(oob_done, "oob")
+        .class_if(case.oob.as_ref().map_or(false, |o| o.far.is_some()), "oob_far")
         .class_if(depth >= 2, "nested")
         .class_if(start_bit % 64 != 0 && crosses, "unaligned_crossing")
         .class_if(built.is_static(), "static_root"))
@@ -179,7 +212,7 @@ fn case_strategy(id: CodecId, max: usize) -> BoxedStrategy<Case> {
     let op = (0..7u8, any::<u16>(), any::<u16>()).prop_map(|(form, a, b)| RangeOp { form, a, b });
     let oob = prop_oneof![
         3 => Just(None),
-        1 => (0..8u8, any::<u16>(), 0..3u8).prop_map(|(kind, a, over)| Some(Oob { kind, a, over })),
+        1 => (0..8u8, any::<u16>(), 0..3u8, proptest::option::weighted(0.35, any::<u8>())).prop_map(|(kind, a, over, far)| Some(Oob { kind, a, over, far })),
     ];
     (gen::seq_spec(id, max), vec(op, 1..=3), oob).prop_map(move |(root, path, oob)| Case { codec: id, root, path, oob }).boxed()
 }
@@ -213,14 +246,31 @@ pub fn run(ctx: &mut Ctx) {
         for kind in 0..8u8 {
             for over in 0..3u8 {
                 for a in [0u16, 30000, 65535] {
-                    cases.push(Case { codec: id, root: root.clone(), path: vec![RangeOp { form: 5, a: 0, b: 0 }], oob: Some(Oob { kind, a, over }) });
-                    cases.push(Case { codec: id, root: root.clone(), path: vec![RangeOp { form: 0, a: 9000, b: 40000 }], oob: Some(Oob { kind, a, over }) });
+                    cases.push(Case { codec: id, root: root.clone(), path: vec![RangeOp { form: 5, a: 0, b: 0 }], oob: Some(Oob { kind, a, over, far: None }) });
+                    cases.push(Case { codec: id, root: root.clone(), path: vec![RangeOp { form: 0, a: 9000, b: 40000 }], oob: Some(Oob { kind, a, over, far: None }) });
+                }
+            }
+        }
+        // every out-of-bounds kind x every far-out index (incl. those whose bit position wraps)
+        for kind in 0..8u8 {
+            for sel in 0..18u8 {
+                for a in [0u16, 65535] {
+                    cases.push(Case { codec: id, root: root.clone(), path: vec![RangeOp { form: 5, a: 0, b: 0 }], oob: Some(Oob { kind, a, over: 0, far: Some(sel) }) });
                 }
             }
         }
         ctx.each(&format!("all_ranges/{}", id.name()), cases, dispatch);
     }
+    // long roots
+    for id in ALL_CODECS {
+        let th = ctx.thorough();
+        let cases = ctx.cases(6, 8);
+        let op = (0..7u8, any::<u16>(), any::<u16>()).prop_map(|(form, a, b)| RangeOp { form, a, b });
+        let st = (gen::seq_spec_long(id, th), vec(op, 1..=3)).prop_map(move |(root, path)| Case { codec: id, root, path, oob: None });
+        ctx.forall(&format!("paths_long/{}", id.name()), cases, st, dispatch);
+    }
     ctx.require_class("oob");
+    ctx.require_class("oob_far");
     ctx.require_class("nested");
     ctx.require_class("unaligned_crossing");
     ctx.require_class("static_root");
